@@ -855,6 +855,10 @@ class Project(MessageHandler):
                     return False
             elif hasattr(vac, "contains") and vac.contains(date):
                 return False
+        return self.defaultHoursAt(date)
+
+    def defaultHoursAt(self, date: Any) -> bool:
+        """The project's default working hours at a wall-clock time (no vacations, no leaves)."""
         # Working hours declared in the project header replace the built-in default
         declared = self.attributes.get("workinghours")
         if declared is not None and hasattr(declared, "onShiftAt") and declared.hasCustomHours():
